@@ -10,19 +10,18 @@ patch="$dir/patch$sfx.diff"; demo="$dir/demo$sfx"
 [ -f "$patch" ] || { echo "NO PATCH $patch"; exit 2; }
 cd $wt || exit 2
 git checkout -q -f --detach "$(git -C /repo rev-parse HEAD)"; git clean -fdq
-run_demo() {   # copies the demo files as RUN.txt says, runs the command; prints PASS/FAIL
-  local cmd dest
-  # heuristics: RUN.txt holds a copy destination (a path under the repo ending in _test.go or a package dir) and a command line
-  for f in "$demo"/*_test.go; do [ -f "$f" ] || continue
-    dest=$(grep -oE '(pkg|internal|cmd)/[A-Za-z0-9_/]+' "$demo/RUN.txt" | head -1); dest=${dest%/}
-    case "$dest" in *_test.go) dest=$(dirname "$dest");; esac
-    [ -d "$dest" ] || dest=$(dirname "$dest")
-    cp "$f" "$dest/"
-  done
-  cmd=$(grep -E '^\s*(cd .*&& )?(go test|bash|sh|\./)' "$demo/RUN.txt" | tail -1)
-  [ -n "$cmd" ] || cmd=$(grep -E 'go test' "$demo/RUN.txt" | tail -1 | sed 's/^[^g]*go test/go test/')
+run_demo() {   # copies the demo test files into the package named by the go test command of RUN.txt and runs it; shell demos are run as they are
+  local cmd pkg
+  cmd=$(grep -oE "go test [^#;]*" "$demo/RUN.txt" | tail -1)
+  if ls "$demo"/*_test.go >/dev/null 2>&1 && [ -n "$cmd" ]; then
+    pkg=$(echo "$cmd" | grep -oE '\./[A-Za-z0-9_/]+' | tail -1); pkg=${pkg%/}
+    cp "$demo"/*_test.go "$wt/$pkg/"
+  else
+    local sh=$(ls "$demo"/*.sh | head -1)
+    cmd="bash $sh"
+  fi
   cmd=$(echo "$cmd" | sed "s#/tmp/seed_$prop#$wt#g")
-  if timeout 300 bash -c "$cmd" >/tmp/mw_demo.log 2>&1; then echo PASS; else echo FAIL; fi
+  if (cd $wt && timeout 600 bash -c "$cmd") >/tmp/mw_demo.log 2>&1; then echo PASS; else echo FAIL; fi
 }
 echo "== $prop$sfx demo on clean tree: $(run_demo)"
 git clean -fdq
